@@ -108,7 +108,7 @@ func runC03(t *testing.T, seed uint64, m *Mask) *Report {
 			case 0:
 				op.HCode, op.HStatus = int32(1000+r.Intn(50)), [3]string{"", "scripted", "cause"}
 			case 1:
-				op.HPanic = true
+				op.HPanic, op.HPanicKind = true, op.Idx%6
 			case 2:
 				op.HSleep = time.Duration(1+r.Intn(4)) * time.Millisecond
 			}
